@@ -36,6 +36,13 @@ class Inconclusive(Exception):
 
 
 CUR: "Engine | None" = None
+_VARS: dict = {}
+_NAMES: dict = {}
+
+
+def var_name(v) -> str:
+    n = _NAMES.get(v.get_id())
+    return n if n is not None else str(v)
 
 
 def engine() -> "Engine":
@@ -78,18 +85,28 @@ class Engine:
 
     # -- variables ---------------------------------------------------------
     def int_var(self, name: str, lo: int | None = None, hi: int | None = None):
-        v = z3.Int(name)
+        hit = _VARS.get(name)
+        if hit is None:
+            hit = _VARS[name] = z3.Int(name)
+            _NAMES[hit.get_id()] = name
+        v = hit
         self.vars.append(v)
-        if lo is not None:
-            self.assume(v >= lo)
-        if hi is not None:
-            self.assume(v <= hi)
+        key = (name, lo, hi)
+        dom = _TERMS.get(key)
+        if dom is None:
+            parts = ([v >= lo] if lo is not None else []) + ([v <= hi] if hi is not None else [])
+            dom = _TERMS[key] = (parts, v)
+        for c in dom[0]:
+            self.assume(c)
         return v
 
     def bool_var(self, name: str):
-        v = z3.Bool(name)
-        self.vars.append(v)
-        return v
+        hit = _VARS.get(name)
+        if hit is None:
+            hit = _VARS[name] = z3.Bool(name)
+            _NAMES[hit.get_id()] = name
+        self.vars.append(hit)
+        return hit
 
     def assume(self, cond) -> None:
         """Add a domain constraint (part of every path of the unit)."""
@@ -117,10 +134,6 @@ class Engine:
     def branch(self, cond) -> bool:
         if isinstance(cond, bool):
             return cond
-        if z3.is_true(cond):
-            return True
-        if z3.is_false(cond):
-            return False
         cid = cond.get_id()
         hit = self.memo.get(cid)
         if hit is not None:
@@ -241,7 +254,7 @@ class Engine:
             try:
                 m = self._ensure_model()
                 model = {
-                    str(v): _pyval(m.eval(v, model_completion=True)) for v in self.vars
+                    var_name(v): _pyval(m.eval(v, model_completion=True)) for v in self.vars
                 }
             except Inconclusive as e:
                 if status == "ok":
@@ -274,6 +287,10 @@ class SymBool:
         self.t = t
 
     def __bool__(self) -> bool:
+        if z3.is_true(self.t):
+            return True
+        if z3.is_false(self.t):
+            return False
         return engine().branch(self.t)
 
     def __and__(self, o):
@@ -443,11 +460,21 @@ class SymInt:
 # SymStr
 
 
+_TERMS: dict = {}  # (id, ...) -> (term, keep-alive refs): z3py term construction is the hot spot
+
+
 def _ceq(a, b):
     """Equality of two code points (python int or z3 term) as bool / z3 Bool."""
-    if isinstance(a, int) and isinstance(b, int):
+    ia, ib = isinstance(a, int), isinstance(b, int)
+    if ia and ib:
         return a == b
-    return a == b
+    if ia:
+        a, b, ib = b, a, True
+    key = (a.get_id(), b) if ib else (a.get_id(), "v", b.get_id())
+    hit = _TERMS.get(key)
+    if hit is None:
+        hit = _TERMS[key] = (a == b, a, b)
+    return hit[0]
 
 
 def _conj(conds: Iterable[Any]):
@@ -484,12 +511,27 @@ def in_set(c, cps: Iterable[int]):
     """Membership of a code point term in a finite set, as bool / z3 Bool."""
     if isinstance(c, int):
         return c in set(cps)
-    return _disj([c == v for v in cps])
+    cps = tuple(cps)
+    key = (c.get_id(), "set", cps)
+    hit = _TERMS.get(key)
+    if hit is None:
+        hit = _TERMS[key] = (_disj([c == v for v in cps]), c)
+    return hit[0]
 
 
 def in_intervals(c, ivs: Iterable[tuple[int, int]]):
     if isinstance(c, int):
         return any(lo <= c <= hi for lo, hi in ivs)
+    if not isinstance(ivs, tuple):
+        ivs = tuple(ivs)
+    key = (c.get_id(), "iv", ivs)
+    hit = _TERMS.get(key)
+    if hit is None:
+        hit = _TERMS[key] = (_in_intervals(c, ivs), c)
+    return hit[0]
+
+
+def _in_intervals(c, ivs):
     parts = []
     for lo, hi in ivs:
         if lo == hi:
@@ -557,7 +599,7 @@ class SymStr:
             if isinstance(c, int):
                 out.append(chr(c))
             else:
-                out.append(chr(model[str(c)]))
+                out.append(chr(model[var_name(c)]))
         return "".join(out)
 
     # -- basics ------------------------------------------------------------
@@ -637,7 +679,19 @@ class SymStr:
     def _match_at(self, sub_ch, pos):
         if pos < 0 or pos + len(sub_ch) > len(self.ch):
             return False
-        return _conj(_ceq(self.ch[pos + k], sub_ch[k]) for k in range(len(sub_ch)))
+        if len(sub_ch) == 1:
+            return _ceq(self.ch[pos], sub_ch[0])
+        parts = [_ceq(self.ch[pos + k], sub_ch[k]) for k in range(len(sub_ch))]
+        if any(p is False for p in parts):
+            return False
+        parts = [p for p in parts if p is not True]
+        if len(parts) < 2:
+            return parts[0] if parts else True
+        key = ("and",) + tuple(p.get_id() for p in parts)
+        hit = _TERMS.get(key)
+        if hit is None:
+            hit = _TERMS[key] = (z3.And(*parts), parts)
+        return hit[0]
 
     def startswith(self, prefix, start=0, end=None):
         n = len(self.ch)
